@@ -225,3 +225,103 @@ Check C09_symbol_level_rejection :
     (process_next_inner p {| y_state := st; y_rep := SymOracle.reps_of h |} true)
     (fst (sym_evs fp st h s) ++ rest, h) = (Failed ELzma, (rest, h)).
 Print Assumptions C09_symbol_level_rejection.
+
+From LZ Require Import Model.Lzma2 Format.RefEnc Format.Lzma2Fmt Proofs.Lzma2Exact Proofs.OutOfWindowSym Proofs.OutOfWindowL2Sym Proofs.OutOfWindowL2Loop Proofs.OutOfWindowL2.
+
+(* LZMA2 end to end, general position: after any well-formed chunk sequence, a compressed chunk whose program ends in a copy reaching beyond the bytes produced since the last dictionary reset is rejected (Failed) for ANY declared room >= 1 - also when the header leaves room for the whole copy - every fragmentation; the sink holds exactly the bytes before the last dictionary reset, a prefix of the legitimate output   [proved as lzma2_out_of_window_rejected in Proofs/OutOfWindowL2.v] *)
+Theorem C09_lzma2_out_of_window_rejected :
+  forall (cs1 : list chunk) (cls : N) (np : option fprops) (good : list sym) (bad : sym) 
+    (delta room : N) (hg : hist) (bflag : bool) (b1 : list N) (s1 : l2state) (b2 : list N) 
+    (s2 : l2state) (trail : list N) (frag : N -> N) (k : snk) (fuel : positive),
+  Lzma2ExactChunk.wf_seq cs1 ->
+  ser_chunks_gen false l2state0 cs1 = Some (b1, s1) ->
+  (cls = 0 -> need_after false cs1 = false) ->
+  Forall (fun x : sym => x <> EndMarker) good ->
+  sem_from None (es_hist (Lzma2ExactChunk.c_es1 s1 cls np)) good = Some (hg, bflag) ->
+  h_len hg <= 18446744073709551615 ->
+  bad_copy2 hg bad ->
+  1 <= room ->
+  ser_lzma_room room s1 cls np (good ++ [bad]) delta = Some (b2, s2) ->
+  delta_ok s1 cls np (good ++ [bad]) delta ->
+  k_wfail k = None ->
+  k_ffail k = false ->
+  fuel_ok fuel (cs1 ++ [CLzma cls np good delta]) ->
+  exists w' : io,
+    lzma2_decompress_top fuel {| i_src := src_of ((b1 ++ b2) ++ trail) frag None; i_snk := k |} =
+    (Failed ELzma, w') /\
+    es_hist (l2_es s2) = hg /\
+    snk_bytes (i_snk w') = snk_bytes k ++ lrev (l2_flushed s2) /\
+    snk_bytes k ++ lrev (h_bytes hg ++ l2_flushed s2) = snk_bytes (i_snk w') ++ lrev (h_bytes hg).
+Proof. exact (@lzma2_out_of_window_rejected). Qed.
+Check C09_lzma2_out_of_window_rejected :
+  forall (cs1 : list chunk) (cls : N) (np : option fprops) (good : list sym) (bad : sym) 
+    (delta room : N) (hg : hist) (bflag : bool) (b1 : list N) (s1 : l2state) (b2 : list N) 
+    (s2 : l2state) (trail : list N) (frag : N -> N) (k : snk) (fuel : positive),
+  Lzma2ExactChunk.wf_seq cs1 ->
+  ser_chunks_gen false l2state0 cs1 = Some (b1, s1) ->
+  (cls = 0 -> need_after false cs1 = false) ->
+  Forall (fun x : sym => x <> EndMarker) good ->
+  sem_from None (es_hist (Lzma2ExactChunk.c_es1 s1 cls np)) good = Some (hg, bflag) ->
+  h_len hg <= 18446744073709551615 ->
+  bad_copy2 hg bad ->
+  1 <= room ->
+  ser_lzma_room room s1 cls np (good ++ [bad]) delta = Some (b2, s2) ->
+  delta_ok s1 cls np (good ++ [bad]) delta ->
+  k_wfail k = None ->
+  k_ffail k = false ->
+  fuel_ok fuel (cs1 ++ [CLzma cls np good delta]) ->
+  exists w' : io,
+    lzma2_decompress_top fuel {| i_src := src_of ((b1 ++ b2) ++ trail) frag None; i_snk := k |} =
+    (Failed ELzma, w') /\
+    es_hist (l2_es s2) = hg /\
+    snk_bytes (i_snk w') = snk_bytes k ++ lrev (l2_flushed s2) /\
+    snk_bytes k ++ lrev (h_bytes hg ++ l2_flushed s2) = snk_bytes (i_snk w') ++ lrev (h_bytes hg).
+Print Assumptions C09_lzma2_out_of_window_rejected.
+
+(* the instance where the declared size is exactly produced + copy length   [proved as lzma2_out_of_window_rejected_fit in Proofs/OutOfWindowL2.v] *)
+Theorem C09_lzma2_out_of_window_rejected_fit :
+  forall (cs1 : list chunk) (cls : N) (np : option fprops) (good : list sym) (bad : sym) 
+    (delta : N) (hg : hist) (bflag : bool) (b1 : list N) (s1 : l2state) (b2 : list N) 
+    (s2 : l2state) (trail : list N) (frag : N -> N) (k : snk) (fuel : positive),
+  Lzma2ExactChunk.wf_seq cs1 ->
+  ser_chunks_gen false l2state0 cs1 = Some (b1, s1) ->
+  (cls = 0 -> need_after false cs1 = false) ->
+  Forall (fun x : sym => x <> EndMarker) good ->
+  sem_from None (es_hist (Lzma2ExactChunk.c_es1 s1 cls np)) good = Some (hg, bflag) ->
+  h_len hg <= 18446744073709551615 ->
+  bad_copy2 hg bad ->
+  ser_lzma_room (copy_len bad) s1 cls np (good ++ [bad]) delta = Some (b2, s2) ->
+  delta_ok s1 cls np (good ++ [bad]) delta ->
+  k_wfail k = None ->
+  k_ffail k = false ->
+  fuel_ok fuel (cs1 ++ [CLzma cls np good delta]) ->
+  exists w' : io,
+    lzma2_decompress_top fuel {| i_src := src_of ((b1 ++ b2) ++ trail) frag None; i_snk := k |} =
+    (Failed ELzma, w') /\
+    es_hist (l2_es s2) = hg /\
+    snk_bytes (i_snk w') = snk_bytes k ++ lrev (l2_flushed s2) /\
+    snk_bytes k ++ lrev (h_bytes hg ++ l2_flushed s2) = snk_bytes (i_snk w') ++ lrev (h_bytes hg).
+Proof. exact (@lzma2_out_of_window_rejected_fit). Qed.
+Check C09_lzma2_out_of_window_rejected_fit :
+  forall (cs1 : list chunk) (cls : N) (np : option fprops) (good : list sym) (bad : sym) 
+    (delta : N) (hg : hist) (bflag : bool) (b1 : list N) (s1 : l2state) (b2 : list N) 
+    (s2 : l2state) (trail : list N) (frag : N -> N) (k : snk) (fuel : positive),
+  Lzma2ExactChunk.wf_seq cs1 ->
+  ser_chunks_gen false l2state0 cs1 = Some (b1, s1) ->
+  (cls = 0 -> need_after false cs1 = false) ->
+  Forall (fun x : sym => x <> EndMarker) good ->
+  sem_from None (es_hist (Lzma2ExactChunk.c_es1 s1 cls np)) good = Some (hg, bflag) ->
+  h_len hg <= 18446744073709551615 ->
+  bad_copy2 hg bad ->
+  ser_lzma_room (copy_len bad) s1 cls np (good ++ [bad]) delta = Some (b2, s2) ->
+  delta_ok s1 cls np (good ++ [bad]) delta ->
+  k_wfail k = None ->
+  k_ffail k = false ->
+  fuel_ok fuel (cs1 ++ [CLzma cls np good delta]) ->
+  exists w' : io,
+    lzma2_decompress_top fuel {| i_src := src_of ((b1 ++ b2) ++ trail) frag None; i_snk := k |} =
+    (Failed ELzma, w') /\
+    es_hist (l2_es s2) = hg /\
+    snk_bytes (i_snk w') = snk_bytes k ++ lrev (l2_flushed s2) /\
+    snk_bytes k ++ lrev (h_bytes hg ++ l2_flushed s2) = snk_bytes (i_snk w') ++ lrev (h_bytes hg).
+Print Assumptions C09_lzma2_out_of_window_rejected_fit.
